@@ -372,7 +372,24 @@ def rule_extend_iter(body, counts):
     return pat.sub(rep, body)
 
 
+def rule_ref_pattern(body, counts):
+    """R13: `if let Some(&x) = E {` -> `if let Some(vx_ref_x) = E { let x = *vx_ref_x;` (Verus has
+    no reference patterns; the binding is the same copy)."""
+    pat = re.compile(r"if let Some\(&(\w+)\) = ")
+    pos = 0
+    while True:
+        m = pat.search(body, pos)
+        if not m:
+            return body
+        x = m.group(1)
+        b = first_brace_at_depth0(body, m.end())
+        body = body[:m.start()] + f"if let Some(vx_ref_{x}) = " + body[m.end():b + 1] + f" let {x} = *vx_ref_{x};" + body[b + 1:]
+        counts["R13"] = counts.get("R13", 0) + 1
+        pos = m.start() + 10
+
+
 FUNC_RULES = [
+    ("R13", rule_ref_pattern, "reference pattern `Some(&x)` -> bind the reference and copy out of it"),
     ("R5f", rule_extend_iter, "X.extend(Y.iter()) -> explicit index loop pushing copies (assumes slice iteration order)"),
     ("R4", rule_raw_vec, "raw-parts encoding of a Vec field (pointer, capacity, write-back); the from_raw_parts length precondition becomes a proof obligation"),
     ("R5d/e", rule_iter_map, "iterator adapter Y.iter().map(f) in collect()/extend() -> explicit index loop (assumes slice iteration order)"),
